@@ -63,3 +63,10 @@ claim("C02", "post-condition monitors on every GeoBox / GCPGeoBox view operation
       "matrices, expected shape from numpy indexing semantics, covering where documented), and every resulting box is checked for internal consistency; chains of 1-6 operations over 7 "
       "affine families, 1xN/Nx1 shapes, translations to 1e7 and GCP boxes (affine and mildly non-affine control points; tolerance from measured residual and non-affinity).",
       _TB + " zoom_to(int) pixel count is logged, not judged; regions given as geometries are C16's.", "DESIGN.md 5/C02")
+
+claim("C03", "post-condition monitor on compute_reproject_roi: brute force over all destination pixel centres with an independent transform (numpy solve / the oracle's own pyproj transformer)",
+      "For each pair every destination pixel centre is mapped to the source independently; needed pixels must lie in roi_dst and their source locations in roi_src, regions inside their "
+      "images (source up to the next multiple of read_shrink), empty when separated by more than padding(+align), scale = min(scale2) with scale2 checked exactly (scale+translation), as "
+      "uniform scale (similarity) or bracketed by Jacobian singular values, read_shrink integer >=1 not exceeding scale by more than 1e-3, reported transform cross-checked. ~3.7e3 pairs "
+      "quick / 7e4 thorough over 10 same-CRS families x placements x padding/align and 10 CRSs.",
+      _TB + " compute_reproject_roi has no caller inside odc-geo, so only direct calls are observed.", "DESIGN.md 5/C03")
